@@ -24,6 +24,8 @@ type EventTicker[I index.Type, T index.IndexedID[I]] struct {
 	scheduledTickerCountMutex sync.RWMutex
 	lastEvictedIndex          I
 	evictionMutex             sync.RWMutex
+	// tickerMutex makes looking up a ticker and changing it (start, stop, reschedule) one atomic step.
+	tickerMutex sync.Mutex
 
 	optsRetryInterval       time.Duration
 	optsRetryJitter         time.Duration
@@ -135,6 +137,9 @@ func (r *EventTicker[I, T]) addTickerToQueue(id T) (added bool) {
 		return false
 	}
 
+	r.tickerMutex.Lock()
+	defer r.tickerMutex.Unlock()
+
 	// ignore already scheduled requests
 	queue := r.scheduledTickers.Get(id.Index(), true)
 	if _, exists := queue.Get(id); exists {
@@ -163,6 +168,9 @@ func (r *EventTicker[I, T]) stopTicker(id T) (stopped bool) {
 		return false
 	}
 
+	r.tickerMutex.Lock()
+	defer r.tickerMutex.Unlock()
+
 	timer, exists := storage.Get(id)
 
 	if !exists {
@@ -190,6 +198,8 @@ func (r *EventTicker[I, T]) reSchedule(id T, count int) {
 		return
 	}
 
+	r.tickerMutex.Lock()
+
 	if _, requestExists := tickerStorage.Get(id); requestExists {
 		// increase the request counter
 		count++
@@ -200,6 +210,8 @@ func (r *EventTicker[I, T]) reSchedule(id T, count int) {
 
 			r.updateScheduledTickerCount(-1)
 
+			r.tickerMutex.Unlock()
+
 			r.Events.TickerFailed.Trigger(id)
 
 			return
@@ -209,6 +221,8 @@ func (r *EventTicker[I, T]) reSchedule(id T, count int) {
 			tickerStorage.Set(id, scheduledTask)
 		}
 	}
+
+	r.tickerMutex.Unlock()
 }
 
 func (r *EventTicker[I, T]) createReScheduler(blkID T, count int) func() {
